@@ -143,6 +143,20 @@ def unit_vals(vals, kinds):
     return out
 
 
+def _qmul(a, b):
+    """Hamilton product, components (x, y, z, w)"""
+    ax, ay, az, aw = a
+    bx, by, bz, bw = b
+    return np.array([aw * bx + ax * bw + ay * bz - az * by,
+                     aw * by - ax * bz + ay * bw + az * bx,
+                     aw * bz + ax * by - ay * bx + az * bw,
+                     aw * bw - ax * bx - ay * by - az * bz])
+
+
+def _qconj(a):
+    return np.array([-a[0], -a[1], -a[2], a[3]])
+
+
 def measurement_model(seed, n_per):
     from oracle_poses import hom
     from graphslam.graph import Graph
@@ -167,6 +181,14 @@ def measurement_model(seed, n_per):
                         # the compact form drops w; the error pose is (v, +-sqrt(1-|v|^2)) -- accept either sign
                         w2 = 1.0 - float(err[3] ** 2 + err[4] ** 2 + err[5] ** 2)
                         ok = any(np.allclose(hom(k, list(err) + [sg * math.sqrt(max(w2, 0.0))]), ME, rtol=0, atol=1e-7 * sc) for sg in (1.0, -1.0))
+                        # the rotational part of the error IS the vector part of the Hamilton product q_rel^* q_z with q_rel = q_1^* q_2
+                        # (no sign canonicalisation: -v is the compact form of a different quaternion); independent numpy products
+                        q1, q2, qz = (np.asarray(p, dtype=np.float64)[3:] for p in (e.vertices[0].pose, e.vertices[1].pose, e.estimate))
+                        qe = _qmul(_qconj(_qmul(_qconj(q1), q2)), qz)
+                        if ok and not np.allclose(err[3:6], qe[:3], rtol=0, atol=1e-9):
+                            fails.append({'edge': name, 'vals': vals, 'law': 'rotational part of the SE(3) odometry error is not the vector part of the Hamilton '
+                                          'product (q1^* q2)^* qz (sign included)', 'err': err.tolist(), 'expected_vector_part': qe[:3].tolist(), 'w_of_error': float(qe[3])})
+                            continue
                     else:
                         ok = np.allclose(hom(k, list(err)), ME, rtol=0, atol=1e-8 * sc)
                     if not ok:
@@ -210,7 +232,8 @@ def measurement_model(seed, n_per):
     for i in range(max(2, n_per // 3)):
         evals += 1
         nv = rng.randint(2, 6)
-        vs = [Vertex(j, cp.make_pose('SE2', ce.gen_vals(rng, 'SE2', 'typical'))) for j in range(nv)]
+        # any pattern of fixed vertices (edges between two fixed vertices still count in chi2)
+        vs = [Vertex(j, cp.make_pose('SE2', ce.gen_vals(rng, 'SE2', 'typical')), fixed=(rng.random() < 0.5)) for j in range(nv)]
         es = []
         for j in range(rng.randint(1, 8)):
             a, b = rng.randrange(nv), rng.randrange(nv)
@@ -321,7 +344,8 @@ def build_graph(rng, kind, nv=None, landmarks=True, noise=0.02, pert=0.05, info_
                 z = ((truth[a] + off).inverse + lp)
                 if noise:
                     z = PP(np.asarray(z) + np.array([rng.gauss(0, noise) for _ in range(ce.DIM[pk])]))
-                edges.append(EdgeLandmark([a, lid], info(ce.DIM[pk]), z, offset=off, offset_id=j))
+                # offset_id is only a label for the .g2o export: an in-memory edge may carry an offset without one
+                edges.append(EdgeLandmark([a, lid], info(ce.DIM[pk]), z, offset=off, offset_id=(j if rng.random() < 0.5 else None)))
     return Graph(edges, verts), truth + lms
 
 
@@ -349,7 +373,7 @@ def frame_independence(seed, n):
         kind = rng.choice(['SE2', 'SE3', 'SE3', 'R2', 'R3'])
         g, _ = build_graph(rng, kind)
         big = rng.random() < 0.3
-        sc = 1e4 if big else 5.0
+        sc = (1e4 if rng.random() < 0.5 else 10.0 ** rng.uniform(5, 7)) if big else 5.0        # up to UTM-sized coordinates
         if kind == 'SE2':
             T = PoseSE2([rng.gauss(0, sc), rng.gauss(0, sc)], rng.choice([rng.uniform(-math.pi, math.pi), math.pi - 1e-4, -math.pi + 1e-4]))
         elif kind == 'SE3':
@@ -359,16 +383,23 @@ def frame_independence(seed, n):
         g2 = transform_graph(g, T, kind)
         evals += 1
         c1, c2 = g.calc_chi2(), g2.calc_chi2()
-        tol = 1e-7 * (1 + abs(c1)) * (1e4 if big else 1.0)
+        tol = 1e-7 * (1 + abs(c1)) * (max(1e4, sc) if big else 1.0)
         if not abs(c1 - c2) <= tol:
             fails.append({'law': 'chi2 changes under a left transform', 'kind': kind, 'seed': seed, 'case': i, 'chi2': c1, 'chi2_T': c2, 'edge': 'graph'})
             continue
         iters = rng.randint(1, 5)
         try:
-            g.optimize(tol=0.0, max_iter=iters, verbose=False)
-            g2.optimize(tol=0.0, max_iter=iters, verbose=False)
+            r1 = g.optimize(tol=0.0, max_iter=iters, verbose=False)
+            r2 = g2.optimize(tol=0.0, max_iter=iters, verbose=False)
         except Exception as ex:  # noqa
             fails.append({'law': 'optimize raised %r' % (ex,), 'kind': kind, 'seed': seed, 'case': i, 'edge': 'graph'})
+            continue
+        # "iteration by iteration": with tol = 0 both runs perform exactly the same number of updates, wherever the world origin is
+        n1, n2 = len(r1.iteration_results), len(r2.iteration_results)
+        if (n1, r1.num_iterations, bool(r1.converged)) != (n2, r2.num_iterations, bool(r2.converged)) and np.isfinite(g.calc_chi2()) and np.isfinite(g2.calc_chi2()):
+            fails.append({'law': 'the transformed graph ran %s iterations (converged=%s), the original %s (converged=%s) with tol=0, max_iter=%d: the stopping '
+                                 'behaviour depends on the world frame' % (r2.num_iterations, r2.converged, r1.num_iterations, r1.converged, iters),
+                          'kind': kind, 'seed': seed, 'case': i, 'T': [float(x) for x in np.asarray(T)], 'edge': 'graph'})
             continue
         if not np.isfinite(g.calc_chi2()) or g.calc_chi2() > 1e6 * (1 + c1):
             continue   # diverged: nothing to compare
